@@ -481,80 +481,7 @@ func checkC07(c *Ctx, r *Report) {
 		if m == nil {
 			continue
 		}
-		for _, fn := range m.FuncsInPkg(mp.pkg) {
-			for _, b := range fn.Blocks {
-				for _, in := range b.Instrs {
-					x, ok := in.(*ssa.BinOp)
-					if !ok || x.Op != token.XOR {
-						continue
-					}
-					isHalf := func(v ssa.Value) bool {
-						sh, ok := strip(v).(*ssa.BinOp)
-						if !ok || sh.Op != token.SHR {
-							return false
-						}
-						k, ok := constInt(sh.Y)
-						return ok && k == 1
-					}
-					var mask ssa.Value
-					switch {
-					case isHalf(x.X):
-						mask = x.Y
-					case isHalf(x.Y):
-						mask = x.X
-					default:
-						continue
-					}
-					nZig++
-					r.fn(fn)
-					key := "zigzag sign mask in " + funcName(fn)
-					okMask, why := false, "mask is "+describe(mask)
-					switch mv := strip(mask).(type) {
-					case *ssa.UnOp:
-						if mv.Op == token.SUB {
-							okMask = true
-						}
-					case *ssa.BinOp:
-						switch mv.Op {
-						case token.SUB:
-							if k, ok := constInt(mv.X); ok && k == 0 {
-								okMask = true
-							}
-						case token.SHR:
-							if bt, ok := mv.X.Type().Underlying().(*types.Basic); ok && bt.Info()&types.IsUnsigned == 0 {
-								okMask = true
-							} else {
-								why = "the sign mask is a logical (unsigned) right shift: it is 0 or 1, never all ones, so negative varints decode as positive"
-							}
-						}
-					}
-					// … and the all-ones value must survive to the width of the result: a negation done on
-					// a narrower unsigned type and then widened is zero-extended (‑(b&1) on a byte is 255,
-					// int64(255) is not ‑1)
-					if okMask {
-						for w := mask; ; {
-							cv, isC := w.(*ssa.Convert)
-							if !isC {
-								break
-							}
-							from, okf := cv.X.Type().Underlying().(*types.Basic)
-							to, okt := cv.Type().Underlying().(*types.Basic)
-							if okf && okt && from.Info()&types.IsUnsigned != 0 && basicWidth(from) < basicWidth(to) {
-								okMask = false
-								why = fmt.Sprintf("the sign mask is computed as %s and then widened to %s: zero extension leaves %d low one-bits, not all ones, so negative values decode as positive", from.Name(), to.Name(), 8*basicWidth(from))
-								break
-							}
-							w = cv.X
-						}
-					}
-					if okMask {
-						r.ok("C07.T7", key, m.Pos(x.Pos()), "")
-					} else {
-						r.viol("C07.T7", key, m.Pos(x.Pos()), why)
-					}
-				}
-			}
-		}
+		nZig += checkZigzagMasks(m, r, "C07.T7", m.FuncsInPkg(mp.pkg))
 	}
 	if nZig == 0 {
 		r.unresolved("C07.T7", "zigzag decoders", "none found")
@@ -729,4 +656,85 @@ func basicWidth(b *types.Basic) int {
 		return 4
 	}
 	return 8
+}
+
+// checkZigzagMasks judges every zigzag decode (v>>1 XOR mask) in fns under the given rule and
+// returns how many it found (shared by C07.T7 and C08.R7).
+func checkZigzagMasks(m *Module, r *Report, rule string, fns []*ssa.Function) int {
+	nZig := 0
+	for _, fn := range fns {
+			for _, b := range fn.Blocks {
+				for _, in := range b.Instrs {
+					x, ok := in.(*ssa.BinOp)
+					if !ok || x.Op != token.XOR {
+						continue
+					}
+					isHalf := func(v ssa.Value) bool {
+						sh, ok := strip(v).(*ssa.BinOp)
+						if !ok || sh.Op != token.SHR {
+							return false
+						}
+						k, ok := constInt(sh.Y)
+						return ok && k == 1
+					}
+					var mask ssa.Value
+					switch {
+					case isHalf(x.X):
+						mask = x.Y
+					case isHalf(x.Y):
+						mask = x.X
+					default:
+						continue
+					}
+					nZig++
+					r.fn(fn)
+					key := "zigzag sign mask in " + funcName(fn)
+					okMask, why := false, "mask is "+describe(mask)
+					switch mv := strip(mask).(type) {
+					case *ssa.UnOp:
+						if mv.Op == token.SUB {
+							okMask = true
+						}
+					case *ssa.BinOp:
+						switch mv.Op {
+						case token.SUB:
+							if k, ok := constInt(mv.X); ok && k == 0 {
+								okMask = true
+							}
+						case token.SHR:
+							if bt, ok := mv.X.Type().Underlying().(*types.Basic); ok && bt.Info()&types.IsUnsigned == 0 {
+								okMask = true
+							} else {
+								why = "the sign mask is a logical (unsigned) right shift: it is 0 or 1, never all ones, so negative varints decode as positive"
+							}
+						}
+					}
+					// … and the all-ones value must survive to the width of the result: a negation done on
+					// a narrower unsigned type and then widened is zero-extended (‑(b&1) on a byte is 255,
+					// int64(255) is not ‑1)
+					if okMask {
+						for w := mask; ; {
+							cv, isC := w.(*ssa.Convert)
+							if !isC {
+								break
+							}
+							from, okf := cv.X.Type().Underlying().(*types.Basic)
+							to, okt := cv.Type().Underlying().(*types.Basic)
+							if okf && okt && from.Info()&types.IsUnsigned != 0 && basicWidth(from) < basicWidth(to) {
+								okMask = false
+								why = fmt.Sprintf("the sign mask is computed as %s and then widened to %s: zero extension leaves %d low one-bits, not all ones, so negative values decode as positive", from.Name(), to.Name(), 8*basicWidth(from))
+								break
+							}
+							w = cv.X
+						}
+					}
+					if okMask {
+						r.ok(rule, key, m.Pos(x.Pos()), "")
+					} else {
+						r.viol(rule, key, m.Pos(x.Pos()), why)
+					}
+				}
+			}
+		}
+	return nZig
 }
